@@ -46,8 +46,10 @@ func (h *NFSProcedureHandler) handleCreate(body io.Reader, reply *RPCReply, auth
 	newUID := authCtx.EffectiveUID
 	newGID := authCtx.EffectiveGID
 	var isExclusive bool
+	var sattr sattr3
+	var verf [8]byte
 	if createHow == 0 || createHow == 1 {
-		sattr, err := decodeSattr3(body)
+		sattr, err = decodeSattr3(body)
 		if err != nil {
 			return nfsErrorWithWcc(reply, GARBAGE_ARGS), nil
 		}
@@ -63,7 +65,6 @@ func (h *NFSProcedureHandler) handleCreate(body io.Reader, reply *RPCReply, auth
 		}
 	} else if createHow == 2 {
 		// M14: Use io.ReadFull for the 8-byte EXCLUSIVE verifier
-		var verf [8]byte
 		if _, err := io.ReadFull(body, verf[:]); err != nil {
 			return nfsErrorWithWcc(reply, GARBAGE_ARGS), nil
 		}
@@ -99,38 +100,78 @@ func (h *NFSProcedureHandler) handleCreate(body io.Reader, reply *RPCReply, auth
 		Gid:  newGID,
 	}
 
+	// RFC 1813 3.3.8: when the name already exists the create mode decides.
+	// GUARDED fails, EXCLUSIVE succeeds only as the retransmission of the call
+	// that created the file (same verifier), UNCHECKED leaves the data of an
+	// existing regular file alone and applies only what sattr3 explicitly sets.
+	targetPath := path.Join(node.path, name)
+	if existing, lerr := h.server.handler.fs.Lstat(targetPath); lerr == nil {
+		existsReply := func() (*RPCReply, error) {
+			var buf bytes.Buffer
+			xdrEncodeUint32(&buf, NFSERR_EXIST)
+			if wccErr := encodeWccData(&buf, dirPreAttrs, dirPreAttrs); wccErr != nil {
+				return nfsErrorWithWcc(reply, NFSERR_EXIST), nil
+			}
+			reply.Data = buf.Bytes()
+			return reply, nil
+		}
+		switch {
+		case createHow == 1:
+			return existsReply()
+		case isExclusive:
+			if !existing.Mode().IsRegular() {
+				return existsReply()
+			}
+			// A file made by an EXCLUSIVE create is handed back only to the same verifier.
+			// (Files of unknown origin keep the historical idempotent answer.)
+			if stored, ok := h.server.handler.exclusiveVerf.Load(targetPath); ok && stored.([8]byte) != verf {
+				return existsReply()
+			}
+		default:
+			if !existing.Mode().IsRegular() {
+				return existsReply()
+			}
+			if sattr.SetSize {
+				if err := h.server.handler.fs.Truncate(targetPath, int64(sattr.Size)); err != nil {
+					return nfsErrorWithWcc(reply, mapError(err)), nil
+				}
+			}
+			if sattr.SetMode {
+				if err := h.server.handler.fs.Chmod(targetPath, os.FileMode(mode)&os.ModePerm); err != nil {
+					return nfsErrorWithWcc(reply, mapError(err)), nil
+				}
+			}
+			h.server.handler.attrCache.Invalidate(targetPath)
+		}
+		existingNode, lookupErr := h.server.handler.Lookup(targetPath)
+		if lookupErr != nil {
+			return nfsErrorWithWcc(reply, mapError(lookupErr)), nil
+		}
+		dirPostAttrs, _ := h.server.handler.GetAttr(node)
+		if dirPostAttrs == nil {
+			dirPostAttrs = dirPreAttrs
+		}
+		handle := h.server.handler.fileMap.Allocate(existingNode)
+		existingNode.mu.RLock()
+		existingAttrsCopy := *existingNode.attrs
+		existingNode.mu.RUnlock()
+		var buf bytes.Buffer
+		xdrEncodeUint32(&buf, NFS_OK)
+		xdrEncodeUint32(&buf, 1)
+		xdrEncodeFileHandle(&buf, handle)
+		xdrEncodeUint32(&buf, 1)
+		if err := encodeFileAttributes(&buf, &existingAttrsCopy); err != nil {
+			return nfsErrorWithWcc(reply, NFSERR_IO), nil
+		}
+		if err := encodeWccData(&buf, dirPreAttrs, dirPostAttrs); err != nil {
+			return nfsErrorWithWcc(reply, NFSERR_IO), nil
+		}
+		reply.Data = buf.Bytes()
+		return reply, nil
+	}
+
 	newNode, err := h.server.handler.Create(node, name, attrs)
 	if err != nil {
-		// For EXCLUSIVE creates, if file already exists, return success
-		// (simplified idempotent behavior per RFC 1813 - full verifier comparison not implemented)
-		if isExclusive && os.IsExist(err) {
-			lookupPath := path.Join(node.path, name)
-			existingNode, lookupErr := h.server.handler.Lookup(lookupPath)
-			if lookupErr == nil {
-				dirPostAttrs, _ := h.server.handler.GetAttr(node)
-				if dirPostAttrs == nil {
-					dirPostAttrs = dirPreAttrs
-				}
-				handle := h.server.handler.fileMap.Allocate(existingNode)
-				existingNode.mu.RLock()
-				existingAttrsCopy := *existingNode.attrs
-				existingNode.mu.RUnlock()
-				var buf bytes.Buffer
-				xdrEncodeUint32(&buf, NFS_OK)
-				xdrEncodeUint32(&buf, 1)
-				xdrEncodeFileHandle(&buf, handle)
-				xdrEncodeUint32(&buf, 1)
-				if err := encodeFileAttributes(&buf, &existingAttrsCopy); err != nil {
-					return nfsErrorWithWcc(reply, NFSERR_IO), nil
-				}
-				if err := encodeWccData(&buf, dirPreAttrs, dirPostAttrs); err != nil {
-					return nfsErrorWithWcc(reply, NFSERR_IO), nil
-				}
-				reply.Data = buf.Bytes()
-				return reply, nil
-			}
-		}
-
 		dirPostAttrs, _ := h.server.handler.GetAttr(node)
 		if dirPostAttrs == nil {
 			dirPostAttrs = dirPreAttrs
@@ -143,6 +184,20 @@ func (h *NFSProcedureHandler) handleCreate(body io.Reader, reply *RPCReply, auth
 		}
 		reply.Data = buf.Bytes()
 		return reply, nil
+	}
+
+	if isExclusive {
+		h.server.handler.exclusiveVerf.Store(targetPath, verf)
+	}
+	if sattr.SetSize && sattr.Size > 0 {
+		// the initial size requested by sattr3
+		if err := h.server.handler.fs.Truncate(targetPath, int64(sattr.Size)); err != nil {
+			return nfsErrorWithWcc(reply, mapError(err)), nil
+		}
+		h.server.handler.attrCache.Invalidate(targetPath)
+		if sized, err := h.server.handler.Lookup(targetPath); err == nil {
+			newNode = sized
+		}
 	}
 
 	// Give the new file the caller's effective identity (or the explicit sattr3
